@@ -7,7 +7,12 @@ exact-Fraction Python (lean/oem/GenFrac/oem_frac.py) and cross-run against the r
 integer matrices (validates the translator).  Independent oracle on the REAL code:
   (a) double precision, `numpy.linalg.solve` evaluation of BOTH the n-form and the m-form, with
       first-order error bounds built from the condition numbers as tolerance,
-  (b) exact rational arithmetic (fractions.Fraction Gauss–Jordan) for integer matrices n, m ≤ 4.
+  (b) exact rational arithmetic (fractions.Fraction Gauss–Jordan) for integer matrices n, m ≤ 4,
+  (c) glue the translator cannot see: dtype variants of every argument (K int64/int32/bool/float32,
+      covariances float64 with non-integer entries < 1 / whole numbers typed int / float32, integer
+      vectors) against the exact oracle and against the same call on the float64-converted values
+      (float64-level accuracy unless a covariance itself is float32); arguments unmodified, second
+      identical call identical, Fortran-order / strided / negative-stride / read-only inputs.
 """
 import importlib.util
 import json
@@ -26,6 +31,7 @@ if PY2LEAN not in sys.path:
 FUNCS = ["error_covariance_matrix", "retrieval_gain_matrix", "averaging_kernel_matrix",
          "smoothing_error", "retrieval_noise"]
 U = 2.220446049250313e-16
+U32 = 1.1920928955078125e-07
 SKIP_REL = 1e-3          # a comparison whose error bound exceeds this relative size is not made
 
 
@@ -155,7 +161,29 @@ def gen_case(np, ck, idx):
     x2, x_a2 = rs.standard_normal(n) * math.sqrt(sa), rs.standard_normal(n)
     e_y, e_y2 = rs.standard_normal(m) * math.sqrt(sy), rs.standard_normal(m) * math.sqrt(sy)
     c = rng.choice([0.0, -1.0, 2.5, loguniform(rng, 1e-3, 1e3)])
-    return {"kind": "float", "n": n, "m": m, "kinds": [kindK, kinda, kindy],
+    dts = {}
+    v = rng.random()
+    if v < 0.10:                      # single-precision Jacobian (read from a file), double covariances
+        K = K.astype(np.float32).astype(float)
+        dts["K"] = "float32"
+    elif v < 0.18 and kscale > 0:     # integer-typed Jacobian: small whole numbers, scale folded into S_y
+        Ki = np.rint(K / kscale * 2)
+        S_y = S_y * (2 / kscale) ** 2
+        sy = sy * (2 / kscale) ** 2
+        K = Ki
+        dts["K"] = rng.choice(["int64", "int32"])
+    elif v < 0.24 and kscale > 0:     # 0/1 selection matrix typed bool
+        S_y = S_y / kscale ** 2
+        sy = sy / kscale ** 2
+        K = (K != 0) & (rs.uniform(size=K.shape) < 0.6)
+        K = K.astype(float)
+        dts["K"] = "bool"
+    if dts:
+        e_y, e_y2 = rs.standard_normal(m) * math.sqrt(sy), rs.standard_normal(m) * math.sqrt(sy)
+        if rng.random() < 0.3:
+            e_y = np.rint(e_y / math.sqrt(sy) * 3)
+            dts["e_y"] = "int64"
+    return {"kind": "float", "n": n, "m": m, "kinds": [kindK + ("/" + dts["K"] if dts else ""), kinda, kindy], "dtypes": dts,
             "K": K.tolist(), "S_a": S_a.tolist(), "S_y": S_y.tolist(),
             "x": x.tolist(), "x_a": x_a.tolist(), "x2": x2.tolist(), "x_a2": x_a2.tolist(),
             "e_y": e_y.tolist(), "e_y2": e_y2.tolist(), "c": c}
@@ -194,10 +222,68 @@ def gen_int_case(ck, idx):
             "c": rng.choice([0, -1, 3, 7])}
 
 
+def gen_dtype_case(ck, idx):
+    """small exactly representable matrices in NON-float64 / mixed dtypes: K as int64 / int32 / bool
+    (0/1, small integers) / float32 (quarters), covariances as float64 with non-integer entries and
+    entries < 1 (dyadic, so exact in float32/float64 and as Fractions), as whole numbers typed int64,
+    or as float32; vectors int64 / float64.  Checked against the exact rational oracle."""
+    rng = ck.rng
+    n, m = rng.randint(1, 4), rng.randint(1, 4)
+    if idx % 4 == 0:
+        m = n
+    kdt = ["int64", "int32", "bool", "float32", "float64", "int64", "bool"][idx % 7]
+    cov = rng.choice(["frac", "frac", "frac", "whole-int", "whole-float", "frac32"])
+    if kdt == "bool":
+        K = [[rng.randint(0, 1) for _ in range(n)] for _ in range(m)]
+    elif kdt == "float32":
+        K = [[rng.randint(-12, 12) / 4 for _ in range(n)] for _ in range(m)]
+    else:
+        K = [[rng.randint(-3, 3) for _ in range(n)] for _ in range(m)]
+        if rng.random() < 0.3:      # selection / summation operator
+            K = [[1 if (i == j or (i + 1 == j and rng.random() < 0.5)) else 0 for j in range(n)] for i in range(m)]
+
+    def spd(k):
+        B = [[rng.randint(-2, 2) for _ in range(k)] for _ in range(k)]
+        d = rng.randint(1, 3)
+        W = [[sum(B[i][t] * B[j][t] for t in range(k)) + (d if i == j else 0) for j in range(k)] for i in range(k)]
+        if cov.startswith("whole"):
+            return W
+        q = rng.choice([2, 4, 8, 16, 32])
+        return [[w / q for w in row] for row in W]
+    dts = {"K": kdt}
+    if cov == "whole-int":
+        dts.update({"S_a": "int64", "S_y": rng.choice(["int64", "int32"])})
+    elif cov == "frac32":
+        dts.update({"S_a": "float32", "S_y": rng.choice(["float32", "float32", "float64"])})
+    vec = rng.choice(["int64", "float64", "float32"])
+    iv = (lambda k: [rng.randint(-5, 5) for _ in range(k)]) if vec == "int64" else (lambda k: [rng.randint(-20, 20) / 4 for _ in range(k)])
+    for key in ("x", "x_a", "x2", "x_a2", "e_y", "e_y2"):
+        if vec != "float64":
+            dts[key] = vec
+    return {"kind": "dtype", "n": n, "m": m, "kinds": [f"{kdt}", cov, cov], "dtypes": dts, "K": K, "S_a": spd(n), "S_y": spd(m),
+            "x": iv(n), "x_a": iv(n), "x2": iv(n), "x_a2": iv(n), "e_y": iv(m), "e_y2": iv(m), "c": rng.choice([0, -1, 3, 0.5])}
+
+
 # ----------------------------------------------------------------------------- the real code
-def call_real(np, oem, case):
-    """run the five real functions; returns dict name -> ndarray or ('exc', type name)"""
-    K, S_a, S_y = (np.array(case[k], dtype=float) for k in ("K", "S_a", "S_y"))
+def arr(np, case, key, f64=False):
+    """the argument `key` of the case in its declared dtype (case["dtypes"], default float64);
+    f64=True: the same VALUES converted to float64 (all stored values are exactly representable)"""
+    dt = "float64" if f64 else case.get("dtypes", {}).get(key, "float64")
+    return np.array(case[key], dtype=float).astype(dt)
+
+
+def all_float32(case):
+    """single-precision results are legitimate: a covariance matrix that IS float32 is inverted by
+    LAPACK in single precision.  A float32 (or integer, bool) Jacobian alone is not a licence:
+    numpy promotes `K.T @ inv(S_y)` to float64, so float64-level accuracy is required."""
+    d = case.get("dtypes", {})
+    return any(d.get(k) == "float32" for k in ("S_a", "S_y"))
+
+
+def call_real(np, oem, case, f64=False):
+    """run the five real functions on the arguments in their declared dtypes (f64=True: on the
+    float64-converted values); returns dict name -> ndarray or ('exc', type name)"""
+    K, S_a, S_y = (arr(np, case, k, f64) for k in ("K", "S_a", "S_y"))
     K = K.reshape(case["m"], case["n"])
     out = {}
 
@@ -212,8 +298,8 @@ def call_real(np, oem, case):
     run("S", lambda: oem.error_covariance_matrix(K, S_a, S_y))
     run("G", lambda: oem.retrieval_gain_matrix(K, S_a, S_y))
     run("A", lambda: oem.averaging_kernel_matrix(K, S_a, S_y))
-    x, x_a, x2, x_a2 = (np.array(case[k], dtype=float) for k in ("x", "x_a", "x2", "x_a2"))
-    e, e2 = np.array(case["e_y"], dtype=float), np.array(case["e_y2"], dtype=float)
+    x, x_a, x2, x_a2 = (arr(np, case, k, f64) for k in ("x", "x_a", "x2", "x_a2"))
+    e, e2 = arr(np, case, "e_y", f64), arr(np, case, "e_y2", f64)
     c = float(case["c"])
     A = out["A"] if not isinstance(out["A"], tuple) else None
     if A is not None and A.shape == (case["n"], case["n"]):
@@ -250,6 +336,9 @@ def check_float(np, oem, ck, case, limits=True):
     S_a, S_y = np.array(case["S_a"], dtype=float), np.array(case["S_y"], dtype=float)
     bad = []
     real = call_real(np, oem, case)
+    # a float32 covariance is inverted in single precision (legitimately); every other mixture
+    # promotes to float64 and float64-level accuracy is required
+    U = U32 if all_float32(case) else globals()["U"]
     # ---- reference quantities (solve-based; never an explicit inverse of the inputs)
     In, Im = np.eye(n), np.eye(m)
     wa, wy = np.linalg.eigvalsh(S_a), np.linalg.eigvalsh(S_y)
@@ -442,7 +531,80 @@ def check_float(np, oem, ck, case, limits=True):
                     slack = 1e-9 + 1e3 * C * U * condM * ka * ky
                     if not norm2(np, In - Ae) <= bound * (1 + 1e-6) + slack:
                         bad.append(("limit_noise", f"‖I − A‖ = {norm2(np, In - Ae):.3e} for S_y scaled by {eps}: exceeds ε‖(KᵀSy⁻¹K)⁻¹‖‖Sa⁻¹‖ = {bound:.3e} — A does not tend to I (n={n}, m={m})"))
+    tols = {"S": (tolS, nS), "G": (tolG, max(nG, nS * nK * nYi * 1e-6)), "A": (tolA, max(norm2(np, A_n), nG * nK * 1e-6, 1e-300)),
+            "r": ((tolG + C * U * nG) * float(np.linalg.norm(e)), nG * float(np.linalg.norm(e)))}
+    real["_tols"] = tols
     return bad, real
+
+
+# ----------------------------------------------------------------------------- glue: dtype variants, purity, layout
+def check_glue(np, oem, ck, case, real, tols):
+    """tols: name -> (absolute 2-norm tolerance, reference scale) for S, G, A, r.
+    (1) arguments in non-float64 dtypes give the same values as the same call on the
+        float64-converted values; (2) arguments are not modified, a second identical call returns
+        the identical result, re-laid-out inputs (Fortran order / strided / negative strides /
+        read-only) give the same values."""
+    import numlib
+    bad = []
+    names = {"S": "error_covariance_matrix", "G": "retrieval_gain_matrix", "A": "averaging_kernel_matrix", "r": "retrieval_noise"}
+    dts = case.get("dtypes", {})
+    usable = {k: v for k, v in tols.items() if v[1] == 0 or v[0] / v[1] <= SKIP_REL}
+    if any(v != "float64" for v in dts.values()):
+        real64 = call_real(np, oem, case, f64=True)
+        for k, (tol, scale) in usable.items():
+            a, b = real.get(k), real64.get(k)
+            if a is None or b is None or isinstance(b, tuple):
+                continue
+            if isinstance(a, tuple):
+                bad.append(("dtype", f"{names[k]} raised {a[1]} for dtypes {dts}, but returns a value for the same values as float64"))
+                continue
+            if a.shape != b.shape:
+                continue
+            ck.count("glue/dtype-variant-vs-float64")
+            err = norm2(np, a.astype(float) - b)
+            if err > 2 * tol + 1e-300:
+                bad.append(("dtype", f"{names[k]} with dtypes {dts} differs from the same call on the float64-converted values by {err:.3e} "
+                                     f"(bound {2 * tol:.3e}, scale {scale:.3e}; n={case['n']}, m={case['m']})"))
+    K, S_a, S_y, e = arr(np, case, "K").reshape(case["m"], case["n"]), arr(np, case, "S_a"), arr(np, case, "S_y"), arr(np, case, "e_y")
+    calls = [("S", oem.error_covariance_matrix, [K, S_a, S_y]), ("G", oem.retrieval_gain_matrix, [K, S_a, S_y]),
+             ("A", oem.averaging_kernel_matrix, [K, S_a, S_y]), ("r", oem.retrieval_noise, [K, S_a, S_y, e])]
+    A = real.get("A")
+    if A is not None and not isinstance(A, tuple) and A.shape == (case["n"], case["n"]):
+        nx = float(np.linalg.norm(arr(np, case, "x", True)) + np.linalg.norm(arr(np, case, "x_a", True)))
+        usable["s"] = (20 * max(case["n"], 1) * 2.3e-16 * norm2(np, A) * nx, norm2(np, A) * nx)
+        names["s"] = "smoothing_error"
+        calls.append(("s", oem.smoothing_error, [arr(np, case, "x"), arr(np, case, "x_a"), np.array(A, dtype=float)]))
+    for k, fn, args in calls:
+        if k not in usable or isinstance(real.get(k), tuple) or real.get(k) is None:
+            continue
+        tol = usable[k][0]
+        work = [a.copy() for a in args]
+        before = [a.copy() for a in work]
+        try:
+            with warnings.catch_warnings():
+                warnings.simplefilter("ignore")
+                r1 = np.array(fn(*work), copy=True)
+                if any(not np.array_equal(a, b) for a, b in zip(work, before)):
+                    i = [not np.array_equal(a, b) for a, b in zip(work, before)].index(True)
+                    bad.append(("argument-modified", f"{names[k]} modified its argument #{i} in place (n={case['n']}, m={case['m']})"))
+                    continue
+                r2 = np.asarray(fn(*work))
+                if r1.shape != r2.shape or not np.array_equal(r1, r2):
+                    bad.append(("not-repeatable", f"{names[k]}: a second identical call returned a different result (n={case['n']}, m={case['m']})"))
+                    continue
+                laid, tags = zip(*[numlib.relayout(np, ck.rng, a) for a in before])
+                try:
+                    r3 = np.asarray(fn(*laid))
+                except Exception as ex:  # noqa: BLE001
+                    bad.append(("layout-raised", f"{names[k]} raised {type(ex).__name__} for the same values in memory layout {list(tags)}"))
+                    continue
+        except Exception:  # noqa: BLE001  (the plain call already classified exceptions)
+            continue
+        ck.count("glue/pure+layout")
+        if r3.shape != r1.shape or norm2(np, r3.astype(float) - r1.astype(float)) > 2 * tol + 1e-300:
+            bad.append(("layout-dependent", f"{names[k]}: the same values in memory layout {list(tags)} give a different result "
+                                            f"(‖Δ‖₂ = {norm2(np, r3.astype(float) - r1.astype(float)) if r3.shape == r1.shape else float('nan'):.3e}, bound {2 * tol:.3e})"))
+    return bad
 
 
 # ----------------------------------------------------------------------------- oracle (b): exact rationals
@@ -476,6 +638,8 @@ def exact_reference(case):
 def check_int(np, oem, ck, case, frac_model):
     import fracmat as F
     bad = []
+    # float64-level accuracy unless a covariance matrix is float32 (then single precision results are legitimate)
+    rtol = 2e-3 if all_float32(case) else 1e-9
     n, m = case["n"], case["m"]
     real = call_real(np, oem, case)
     ex = exact_reference(case)
@@ -489,7 +653,7 @@ def check_int(np, oem, ck, case, frac_model):
         if v is None:
             continue
         if isinstance(v, tuple):
-            bad.append(("exception", f"{names[k]}: real code raised {v[1]} on integer SPD input (n={n}, m={m})"))
+            bad.append(("exception", f"{names[k]}: real code raised {v[1]} on a small exactly representable SPD input, dtypes {case.get('dtypes') or 'float64'} (n={n}, m={m})"))
             continue
         if v.shape != shapes[k]:
             bad.append(("shape", f"{names[k]}: shape {v.shape}, expected {shapes[k]} (n={n}, m={m})"))
@@ -497,10 +661,11 @@ def check_int(np, oem, ck, case, frac_model):
         want = np.array(F.tofloat(ex[k]), dtype=float).reshape(shapes[k])
         err = float(np.linalg.norm((v - want).ravel()))
         ck.count("exact/" + k)
-        if not err <= 1e-9 * scales[k] + 1e-300:
-            bad.append((("exact_" + k), f"{names[k]} differs from the exact rational value by {err:.3e} (scale {scales[k]:.3e}; n={n}, m={m})"))
+        if not err <= rtol * scales[k] + 1e-300:
+            bad.append((("exact_" + k), f"{names[k]} differs from the exact rational value by {err:.3e} (scale {scales[k]:.3e}, dtypes {case.get('dtypes', 'float64')}; n={n}, m={m})"))
     # cross-run of the translated model (Fraction dialect) against the real code
-    if frac_model is not None:
+    real["_tols"] = {k: (rtol * scales[k], scales[k]) for k in ("S", "G", "A", "r")}
+    if frac_model is not None and rtol == 1e-9:
         K, Sa, Sy = F.mat(case["K"]), F.mat(case["S_a"]), F.mat(case["S_y"])
         if m and n:
             margs = {"error_covariance_matrix": ("S", (K, Sa, Sy)), "retrieval_gain_matrix": ("G", (K, Sa, Sy)),
@@ -564,13 +729,14 @@ def _brief(case):
 
 # ----------------------------------------------------------------------------- driver
 def run_case(np, oem, ck, case, frac_model, origin="generated"):
-    if case.get("kind") == "int":
+    if case.get("kind") in ("int", "dtype"):
         bad, real = check_int(np, oem, ck, case, frac_model)
         # the double-precision oracle applies to integer matrices as well
         bad2, _ = check_float(np, oem, ck, case, limits=False)
         bad += bad2
     else:
         bad, real = check_float(np, oem, ck, case)
+    bad += check_glue(np, oem, ck, case, real, real.get("_tols", {}))
     A = real.get("A")
     dfs = float(np.trace(A)) if A is not None and not isinstance(A, tuple) and A.ndim == 2 and A.shape[0] == A.shape[1] else None
     n, m = case["n"], case["m"]
@@ -586,13 +752,16 @@ def run_case(np, oem, ck, case, frac_model, origin="generated"):
         if sig in seen:
             continue
         seen.add(sig)
-        ck.violation(sig if sig in ("exception", "shape") else "other", msg, small_case(case))
+        ck.violation(sig if sig in ("exception", "shape", "dtype", "argument-modified", "not-repeatable", "layout-raised", "layout-dependent")
+                     else "other", msg, small_case(case))
     return bad
 
 
 def explore(ck, np, oem, n_float, n_int, frac_model):
     for i in range(n_int):
         run_case(np, oem, ck, gen_int_case(ck, i), frac_model)
+    for i in range(max(n_int // 2, 28)):
+        run_case(np, oem, ck, gen_dtype_case(ck, i), frac_model)
     for i in range(n_float):
         run_case(np, oem, ck, gen_case(np, ck, i), None)
 
@@ -657,11 +826,16 @@ def replay(path):
     class _Null:
         def count(self, *a, **k):
             pass
-    if case.get("kind") == "int":
-        bad, _ = check_int(np, oem, _Null(), case, None)
-        bad += check_float(np, oem, _Null(), case, limits=False)[0]
+    import random
+    nul = _Null()
+    nul.rng = random.Random(0)
+    if case.get("kind") in ("int", "dtype"):
+        bad, real = check_int(np, oem, nul, case, None)
+        bad += check_float(np, oem, nul, case, limits=False)[0]
     else:
-        bad, _ = check_float(np, oem, _Null(), case)
+        bad, real = check_float(np, oem, nul, case)
+    for _ in range(5):                      # several memory layouts
+        bad += check_glue(np, oem, nul, case, real, real.get("_tols", {}))
     print(f"n={case['n']} m={case['m']} kinds={case.get('kinds')}")
     for sig, msg in bad:
         print("REPRODUCED:", sig, "—", msg)
